@@ -91,6 +91,11 @@ def run_case(spec, ctx):
                                                            and 'unbounded' not in str(st).lower()):
             ctx.count('ecos_numerical')
             return {'status': 'skip', 'reason': 'ECOS numerical status %s' % st, 'features': f}
+        if not C.definitive_failure(sname, st):
+            # (e.g. Gurobi 13 SUBOPTIMAL / 9 TIME_LIMIT: the solver gave up, it does not say that
+            # the model has no optimum)
+            ctx.count('solver_gave_up:' + sname)
+            return {'status': 'skip', 'reason': 'solver status %s' % st, 'features': f}
         # model is feasible (xstar) and bounded (boxes) by construction: verify the witness
         x = np.array(spec['xstar'])
         y0 = [np.array(a) for a in spec['ystar'][0]]
